@@ -146,6 +146,35 @@ def check_process_object(ctx, rep):
     rep.check('C13.P', 'process_object::one-registry', all(s.value.id == dic for _, s in lookups + register), W, None, "lookups and registration use different dictionaries")
 
 
+def check_constructors_outside_the_protocol(ctx, rep):
+    """who-may-call: `X.from_json(spec, registry)` / `X.from_json_safe(spec, registry)` with a registry that is shared (anything but a literal `{}` / `dict()`) is called by
+    process_object* (core/utils.py), by from_json_safe itself and by from_json methods on their own data — nowhere else.  A helper that builds a specification "on the spot"
+    hands back an object that was never checked against the ids already defined and is never registered, so the same id can denote two objects."""
+    allowed_fn = set(PROCESS_FUNCS) | {'from_json', 'from_json_safe', '_from_json'}
+    n = 0
+    for mname, m in sorted(ctx.prog.modules.items()):
+        if not mname.startswith('torchtree') or '.cli' in mname:
+            continue
+        for fn in ast.walk(m.tree):
+            if not isinstance(fn, ast.FunctionDef) or fn.name in allowed_fn:
+                continue
+            cl = getattr(fn, '_parent', None)
+            scope = f"{cl.name}.{fn.name}" if isinstance(cl, ast.ClassDef) else fn.name
+            for c in ast.walk(fn):
+                if not (isinstance(c, ast.Call) and isinstance(c.func, ast.Attribute) and c.func.attr in ('from_json', 'from_json_safe') and len(c.args) >= 2):
+                    continue
+                if any(c is y for sub in ast.walk(fn) if isinstance(sub, ast.FunctionDef) and sub is not fn for y in ast.walk(sub)):
+                    continue
+                n += 1
+                reg = c.args[1]
+                private = (isinstance(reg, ast.Dict) and not reg.keys) or (isinstance(reg, ast.Call) and isinstance(reg.func, ast.Name) and reg.func.id == 'dict' and not reg.args)
+                rep.check('C13.W', f"{mname.replace('torchtree.', '')}::{scope}::{norm_text(c)[:50]}::built-through-process_object", private, where(m, c), {'registry': norm_text(reg)[:40]},
+                          f"{scope} builds a specification with `{norm_text(c)[:60]}` against the shared registry `{norm_text(reg)[:20]}` outside process_object: the object is not "
+                          f"checked against the ids already defined and is not registered — a second definition of its id is accepted silently and a later reference to it does not "
+                          f"resolve")
+    rep.analysed['constructor_calls_outside_from_json'] = n
+
+
 def check_from_json_sites(ctx, rep):
     fjs = all_from_json(ctx)
     if len(fjs) < 80:
@@ -392,6 +421,22 @@ def check_main(ctx, rep):
                 swallowed += names
     rep.check('C13.M', 'main::only-parse-errors-swallowed', set(swallowed) <= {'JSONParseError'}, where(m, fn), {'swallowed': swallowed},
               f"main() swallows {swallowed}: construction errors other than parse errors are hidden")
+    # an ill-formed specification is REJECTED: once a parse error has been caught, nothing further is constructed and nothing runs (the handler leads to the exit only)
+    after_error = []
+    handlers = [nd for nd in cfg.nodes if nd.kind == 'handler' and nd.stmt is not None and any(
+        (dotted_name(x) or '').split('.')[-1] == 'JSONParseError' for x in ((nd.stmt.type.elts if isinstance(nd.stmt.type, ast.Tuple) else [nd.stmt.type]) if nd.stmt.type is not None else []))]
+    runs = nodes_calling('run')
+    for h in handlers:
+        reach = cfg.reachable_after(h)
+        for node, call in po + runs:
+            if node.id in reach:
+                after_error.append(norm_text(call)[:40])
+    if handlers:
+        rep.check('C13.M', 'main::nothing-is-built-or-run-after-a-parse-error', not after_error, where(m, handlers[0].stmt), {'reachable_after_the_handler': sorted(set(after_error))},
+                  f"after main() has caught a JSONParseError it can still reach {sorted(set(after_error))}: the ill-formed element is skipped and the rest of the file is constructed "
+                  f"and run, so a specification with a dangling reference / duplicate id is executed in part instead of being rejected")
+    else:
+        rep.undecided('C13.M', 'main::nothing-is-built-or-run-after-a-parse-error', where(m, fn), 'no handler of JSONParseError found in main()')
 
 
 def _parents(n, stop):
@@ -759,6 +804,22 @@ def check_factories(ctx, rep):
                 ok = ok or (rr is not None and rr[0] == 'class')
             rep.check('C13.F', f"{key}::type={t}", ok, W, {'type': t},
                       f"{ci.name}.json_factory writes type '{t}', which does not resolve to {ci.name}")
+    # a factory that is INHERITED still has to describe the class it is called on: `Sub.json_factory(...)` that writes the type of a sibling loads into that sibling
+    ni = 0
+    for ci in sorted(ctx.classes.classes.values(), key=lambda c: c.qualname):
+        if 'json_factory' in ci.methods or ci.is_abstract() or registered.get(ci.name) is not ci:
+            continue
+        r = ci.resolve('json_factory')
+        if r is None:
+            continue
+        may, types, open_ = factory_keys(r[1])
+        for t in sorted(types):
+            ni += 1
+            short = t.split('.')[-1]
+            rep.check('C13.F', f"{ci.qualname}::inherited-factory-type={t}", registered.get(short) is ci, where(r[0].module, r[1]), {'type': t, 'defined_in': r[0].qualname},
+                      f"{ci.name} inherits json_factory from {r[0].name}, which writes the fixed type '{t}': a specification made by {ci.name}.json_factory loads into a "
+                      f"{short}, not into the class it was asked from")
+    rep.analysed['inherited_factories'] = ni
     if n < 10:
         raise AnalysisError(f"only {n} json_factory/from_json pairs found")
 
@@ -867,6 +928,7 @@ def run(ctx, rep):
     check_process_object(ctx, rep)
     check_from_json_safe(ctx, rep)
     check_from_json_sites(ctx, rep)
+    check_constructors_outside_the_protocol(ctx, rep)
     check_main(ctx, rep)
     check_remove_comments(ctx, rep)
     try:
